@@ -35,7 +35,7 @@ def main():
         if r.returncode != 0:
             print("PATCH FAILED:", r.stdout)
             return 3
-        env = dict(os.environ, VERIF_REPO=root, VERIF_EVIDENCE=os.path.join(d, "evidence"))
+        env = dict(os.environ, VERIF_REPO=root, VERIF_EVIDENCE=os.path.join(d, "evidence"), VERIF_CACHE=os.path.join(d, "cache"))
         worst = 0
         for p in props:
             r = subprocess.run([os.path.join(VERIF, "check"), p, "--tier", tier], env=env,
